@@ -182,7 +182,7 @@ def tilt_case(draw, tier="quick"):
     amp, opd, mask = draw(gen.aperture(shape, wl, max_waves=1.0, min_samples=4))
     segmented = draw(st.booleans())
     if segmented:
-        labels, _ = draw(gen.partition(mask.astype(bool), kmax=4))
+        labels, _ = draw(gen.partition(mask.astype(bool), kmax=4, kmin=2))
     else:
         labels = (mask != 0).astype(int)
     k = int(labels.max())
@@ -193,6 +193,11 @@ def tilt_case(draw, tier="quick"):
     half = (out_shape[0] * os_ / 2, out_shape[1] * os_ / 2)
     ang = lambda axis: draw(angle_for(z, du[axis], os_, half[axis]))  # noqa: E731
     seg_angles = [[ang(0), ang(1)] for _ in range(k)]
+    if segmented and k >= 2 and draw(st.booleans()):
+        # one segment that is exactly flat and untilted among tilted ones
+        flat = draw(st.integers(1, k))
+        opd = np.where(labels == flat, 0.0, opd)
+        seg_angles[flat - 1] = [0.0, 0.0]
     ramp_repr = draw(st.sampled_from(["opd", "fit", "fit_inplace", "none"]))
     extras = []
     for _ in range(draw(st.integers(0, 3))):
@@ -282,6 +287,8 @@ def propagate(case, ctx):
     frac = np.abs(meta - np.fix(meta))
     ctx.tag("nonsquare_du" if du[0] != du[1] else "square_du", "segmented" if case["segmented"] else "monolithic",
             f"k:{k}", "repr:" + case["ramp_repr"], f"n_tilt_elements:{len(case['extras'])}",
+            "fit_with_untilted_segment_before_tilted" if case["ramp_repr"].startswith("fit") and k >= 2 and any(
+                not np.any(meta[i] - glob) and np.any(meta[i + 1:] - glob) for i in range(k - 1)) else None,
             "wavefront_tilt" if case["wf_tilt"] is not None else None,
             "dispersive" if any(e["kind"].startswith("disp") for e in case["extras"]) else None,
             "shift>window" if np.any(np.abs(meta) > np.array(win) / 2) else None,
